@@ -106,4 +106,115 @@ def shardOutcomeUnfixed {α : Type} (n : Nat) (pick : Nat → Nat → α → Nat
   else if (List.range n).any (fun s => s != d && ownFails items hints s && !autoClosedUnfixed pick items hints s d) then .hang
   else .ok (reshard n pick (fun s => (sendLoop (hints s) 0 (items s)).1) d)
 
+/-! ### Input streams that are polled: `reshard_aad` and its `StreamSplitter` (`query/runner/reshard_tag.rs`)
+
+`reshard_aad(ctx, input, picker)` takes a stream of `Ok((k, a))` / `Err` items — data record `k` stays on this
+shard, tag `a` is resharded — and wraps it in `StreamSplitter { inner: input, buf: &mut k_buf }`, whose
+`poll_next` forwards ONE poll to the inner stream. A real input stream (reports arriving from the network,
+`seq_join` over decryption futures) answers `Poll::Pending` whenever its next item is not there yet. The model
+below makes the polls explicit: the input of one shard is the list of answers its stream gives to successive
+polls before its end (after the list is used up the stream answers `Ready(None)`). -/
+
+/-- the answer of the INPUT stream to one `poll_next` -/
+inductive Ev (κ α : Type) where
+  /-- `Poll::Ready(Some(Ok((k, a))))` -/
+  | ready (k : κ) (a : α)
+  /-- `Poll::Pending` — the stream has arranged for a wake-up; the task will poll again -/
+  | pending
+  /-- `Poll::Ready(Some(Err(e)))` -/
+  | err
+  deriving DecidableEq, Repr
+
+/-- the answer of the SPLITTER to one `poll_next` -/
+inductive SOut (α : Type) where
+  | pending
+  | item (a : α)
+  | err
+  | done
+  deriving DecidableEq, Repr
+
+/-- `StreamSplitter::poll_next`, state = `k_buf`; `none` = the inner stream answers `Ready(None)`:
+```
+match ready!(this.inner.poll_next(cx)) {
+    Some(Ok((k, a))) => { this.buf.push(k); Poll::Ready(Some(Ok(a))) }
+    Some(Err(e)) => Poll::Ready(Some(Err(e))),
+    None => Poll::Ready(None),
+}
+```
+(`ready!` returns `Poll::Pending` to the caller and changes nothing). Pinned by the translator items
+`reshard.splitter.*`. -/
+def splitterPoll {κ α : Type} (buf : List κ) : Option (Ev κ α) → List κ × SOut α
+  | some .pending => (buf, .pending)
+  | some (.ready k a) => (buf ++ [k], .item a)
+  | some .err => (buf, .err)
+  | none => (buf, .done)
+
+/-- The consumer of the splitter is the send loop of `reshard_try_stream`: `input.try_next().await?`. An answer
+`Pending` suspends the task; after the wake-up the task polls again (the next answer of the stream); the first
+`Err` ends the operation (`?`); after `Ready(None)` the fused unfold never polls again. Returns the final
+`k_buf` and the items the send loop has seen (`none` = the `Err` item, always last). -/
+def runSplitter {κ α : Type} : List κ → List (Ev κ α) → List κ × List (Option α)
+  | buf, [] => ((splitterPoll buf (none : Option (Ev κ α))).1, [])
+  | buf, ev :: rest =>
+    match splitterPoll buf (some ev) with
+    | (buf', .pending) => runSplitter buf' rest
+    | (buf', .item a) => ((runSplitter buf' rest).1, some a :: (runSplitter buf' rest).2)
+    | (buf', .err) => (buf', [none])
+    | (buf', .done) => (buf', [])
+
+/-- The same consumer on the RAW stream (what `reshard_try_stream` / `reshard_stream` see when they are called
+directly): the `Ok` items up to the first `Err`, and whether an `Err` was met. -/
+def awaitItems {κ α : Type} : List (Ev κ α) → List (κ × α) × Bool
+  | [] => ([], false)
+  | .pending :: rest => awaitItems rest
+  | .ready k a :: rest => ((k, a) :: (awaitItems rest).1, (awaitItems rest).2)
+  | .err :: _ => ([], true)
+
+/-- `[Err]` if the stream failed -/
+def errTail {α : Type} : Bool → List (Option α)
+  | true => [none]
+  | false => []
+
+/-- the input with all `Pending` answers removed: the stream as a plain sequence of items -/
+def stripPending {κ α : Type} : List (Ev κ α) → List (Ev κ α)
+  | [] => []
+  | .pending :: rest => stripPending rest
+  | e :: rest => e :: stripPending rest
+
+/-- the items the send loop of shard `s` sees through the splitter -/
+def aadItems {κ α : Type} (evs : Nat → List (Ev κ α)) (s : Nat) : List (Option α) := (runSplitter [] (evs s)).2
+
+/-- what the caller of `reshard_aad` on shard `d` observes -/
+inductive AadOutcome (κ α : Type) where
+  /-- `Ok((k_buf, a_buf))` -/
+  | ok (kept : List κ) (tags : List α)
+  | err
+  | hang
+  deriving DecidableEq, Repr
+
+/-- `reshard_aad` on shard `d`: `reshard_try_stream(ctx, splitter, picker).await?` then `Ok((k_buf, a_buf))`. -/
+def aadOutcome {κ α : Type} (n : Nat) (pick : Nat → Nat → α → Nat) (evs : Nat → List (Ev κ α)) (hints : Nat → Nat) (d : Nat) :
+    AadOutcome κ α :=
+  match shardOutcome n pick (aadItems evs) hints d with
+  | .ok tags => .ok (runSplitter [] (evs d)).1 tags
+  | .err => .err
+  | .hang => .hang
+
+/-- `reshard_try_stream` called directly on a polled stream of `Ok(a)` / `Err` items (`κ = Unit`) -/
+def polledItems {α : Type} (evs : Nat → List (Ev Unit α)) (s : Nat) : List (Option α) :=
+  ((awaitItems (evs s)).1.map fun ka => some ka.2) ++ errTail (awaitItems (evs s)).2
+
+def polledOutcome {α : Type} (n : Nat) (pick : Nat → Nat → α → Nat) (evs : Nat → List (Ev Unit α)) (hints : Nat → Nat) (d : Nat) : Outcome α :=
+  shardOutcome n pick (polledItems evs) hints d
+
+/-! #### A splitter that remembers the end of its input in a flag computed BEFORE `ready!` (independent
+seed `seeded/C19c`): `*done = !matches!(next, Poll::Ready(Some(Ok(_))))` is also set by `Poll::Pending`, so the
+poll after the first stall reports `Ready(None)`: the regular end of the input. Kept as documentation of why
+the `Pending` arm must leave the state alone. -/
+def runSplitterDoneFlag {κ α : Type} : List κ → List (Ev κ α) → List κ × List (Option α)
+  | buf, [] => (buf, [])
+  | buf, .pending :: _ => (buf, [])
+  | buf, .ready k a :: rest => ((runSplitterDoneFlag (buf ++ [k]) rest).1, some a :: (runSplitterDoneFlag (buf ++ [k]) rest).2)
+  | buf, .err :: _ => (buf, [none])
+
 end IpaVerif.Reshard
